@@ -170,7 +170,11 @@ func spellString(r *rng, s []byte) string {
 			case b == '\r':
 				sb.WriteString(pick(r, []string{"\\r", "\\015"}))
 			case b == '\n' && choice < 3:
-				sb.WriteString(pick(r, []string{"\n", "\r", "\r\n", "\\n"})) // raw line ends read as LF
+				sp := pick(r, []string{"\n", "\r", "\r\n", "\\n"}) // raw line ends read as LF
+				if sp == "\n" && strings.HasSuffix(sb.String(), "\r") {
+					sp = "\\n" // a raw LF after a raw CR would spell one CRLF line end, not a second one
+				}
+				sb.WriteString(sp)
 			case choice == 0:
 				fmt.Fprintf(&sb, "\\%03o", b)
 			case choice == 1 && !nextIsOctal:
@@ -182,7 +186,11 @@ func spellString(r *rng, s []byte) string {
 			case choice == 2 && b == '\f':
 				sb.WriteString("\\f")
 			default:
-				sb.WriteByte(b)
+				if b == '\n' && strings.HasSuffix(sb.String(), "\r") {
+					sb.WriteString("\\n")
+				} else {
+					sb.WriteByte(b)
+				}
 			}
 			if r.chance(1, 12) {
 				sb.WriteString(pick(r, []string{"\\\n", "\\\r", "\\\r\n"})) // line continuation
